@@ -283,13 +283,16 @@ def protocol_history_file(chunk):
     scratch = os.path.join(common.scratch_dir(), f"c32-f-{os.getpid()}")
     viol, n = [], 0
     for hist, no_cache, array in chunk:
+        nested = isinstance(array, str)  # "nested": the File sits inside a dict/list result (single job)
+        array = array is True
         shutil.rmtree(scratch, ignore_errors=True)
         os.makedirs(scratch)
         path = os.path.join(scratch, "data.txt")
         opts = {"cache": False} if no_cache else None
-        job = make_job(wr.flaky_file, (path,), {}, opts)
-        other = make_job(wr.flaky_file, (path + ".other",), {}, opts)
-        case = {"leg": "history-file", "attempts": [list(h) for h in hist], "no_cache": no_cache, "array": array}
+        ftask = wr.flaky_files if nested else wr.flaky_file
+        job = make_job(ftask, (path,), {}, opts)
+        other = make_job(ftask, (path + ".other",), {}, opts)
+        case = {"leg": "history-file", "attempts": [list(h) for h in hist], "no_cache": no_cache, "array": array, "nested": nested}
         if array:
             write_array_job_scratch_files([other, job], scratch, "arrayid2")
             cmd = get_oneshot_command(scratch, other, other.task, job_options=other.get_options(), array_uuid="arrayid2")
@@ -316,10 +319,12 @@ def protocol_history_file(chunk):
                 m_out = m_valid = not fails
             where = f"attempt {step + 1} of {[list(h) for h in hist]} ((fails, output rewritten before)) no_cache={no_cache} array={array}"
             if st != want_st or len(wr.CALLS) != want_calls:
-                viol.append((f"history-file:wrong-attempt-outcome:no_cache={no_cache}", case, f"{where}: container {st} after {len(wr.CALLS)} calls of the task body, expected {want_st} after {want_calls}"))
+                viol.append((f"history-file:wrong-attempt-outcome:no_cache={no_cache}{':nested' if nested else ''}", case, f"{where}: container {st} after {len(wr.CALLS)} calls of the task body, expected {want_st} after {want_calls}"))
                 break
             if st == "ok":
                 res, exists = parse_job_result(scratch, job)
+                if nested and exists and isinstance(res, dict):
+                    res = res["report"][0]
                 if not exists or type(res).__name__ != "File" or res.path != path:
                     viol.append((f"history-file:wrong-result:no_cache={no_cache}", case, f"{where}: monitor reads {res!r} exists={exists}"))
             else:
@@ -640,7 +645,7 @@ def run(ctx):
     ctx.add_results(r3)
     Lf = ctx.pick(3, 4)
     steps = [(0, 0), (1, 0), (0, 1), (1, 1)]
-    fhists = [(h, nc, arr) for k in range(1, Lf + 1) for h in itertools.product(steps, repeat=k) for nc in (False, True) for arr in (False, True)]
+    fhists = [(h, nc, arr) for k in range(1, Lf + 1) for h in itertools.product(steps, repeat=k) for nc in (False, True) for arr in (False, True, "nested")]
     r3f = ctx.pmap(protocol_history_file, chunks(ctx.rotate(fhists), 12), chunksize=1)
     check_harness_errors(r3f)
     ctx.add_results(r3f)
